@@ -52,8 +52,15 @@ func GenerateConcurrent(bitsize int, stop chan struct{}) (<-chan *big.Int, <-cha
 				case <-stopped:
 					return
 				default:
-					ints <- x
-					continue
+				}
+
+				// The send must be abandoned as well when we are told to stop: the receiver stops
+				// reading from ints at that point, so if the buffer is full a plain send would block
+				// this goroutine forever.
+				select {
+				case <-stopped:
+					return
+				case ints <- x:
 				}
 			}
 		}()
